@@ -117,7 +117,7 @@ def pick_interrupt_limits(drv, L2, stream, i, m, tol_first=False, rng=None):
     return None, None, None
 
 
-def check_config(ctx, drv, cfg, L2, max_index, case_out=None):
+def check_config(ctx, drv, cfg, L2, max_index, case_out=None, sibling=False):
     """returns ok"""
     import numpy as np
     from sparseSpACE.StandardCombi import StandardCombi
@@ -141,9 +141,11 @@ def check_config(ctx, drv, cfg, L2, max_index, case_out=None):
     sa0, eo0, f0 = build(cfg)
     try:
         r0 = perform(sa0, eo0, cfg, L2)
-    except Exception:  # noqa: BLE001  (a failing or endless single run is C13's business)
-        ctx.count("single_run_failed")
+    except c13.Runaway:
+        ctx.count("single_run_cut_by_guard")
         return True
+    except Exception as e:  # noqa: BLE001  (k. an exception on a valid configuration is a violation with a replayable case)
+        return not ctx.violation("single-run-raises", dict(base_tags), case, {"exception": "%s: %s" % (type(e).__name__, e)})
     stream = stream_of(r0)
     m = len(stream) - 1
     if m > max_index:
@@ -165,7 +167,11 @@ def check_config(ctx, drv, cfg, L2, max_index, case_out=None):
     if first != m:
         corr("single-run-stop-index", "stopped at %d" % m, "first index satisfying the limits: %s" % first)
     rng_pts = [[ctx.rng.choice([0.0, 1.0, 0.5, 0.25, 0.3, 0.7, 0.123, 0.9, 0.625]) for _ in range(cfg["dim"])] for _ in range(5)]
-    rng_pts = [tuple(p) for p in rng_pts]
+    lo, hi = c13.box_of(cfg)
+    rng_pts = [tuple(lo[d] + p[d] * (hi[d] - lo[d]) for d in range(cfg["dim"])) for p in rng_pts]
+    sibling_cfg = sibling if sibling is not False else (c13.small_sibling_cfg(ctx.rng) if ctx.rng.random() < 0.3 else None)
+    if sibling_cfg is not None:
+        case["sibling"] = sibling_cfg
     for i in range(m + 1):
         # dimension-wise: in 60 % of the indices the first leg is one that STOPPED BY TOLERANCE t1 > tol2 (when the errors
         # allow it); the continuation must honour the NEW tolerance, not the one of the first call
@@ -261,6 +267,20 @@ def check_config(ctx, drv, cfg, L2, max_index, case_out=None):
                 late_twin = (twin, a_call if "exception" not in bad else None)
             else:
                 late_twin = None
+            # a. repeated queries on the stopped instance agree and change nothing
+            q = [(int(inst.get_total_num_points()), [float(x) for x in np.atleast_1d(inst.operation.get_result())],
+                  int(inst.refinement.evaluationstotal)) for _ in range(2)]
+            if q[0] != q[1] or q[0][0] != int(r1[6][-1]):
+                ok = not ctx.violation("queries-disagree", tags, sub, {"two_reads (points, result, evaluations)": q,
+                                                                       "returned_points": int(r1[6][-1])}) and ok
+            # b. an unrelated sibling object (other strategy / function / options) works between the stop and the continuation
+            if sibling_cfg is not None:
+                try:
+                    sb, eb, _fb = build(sibling_cfg)
+                    perform(sb, eb, sibling_cfg, {"tol": -1.0, "min": 1, "max": 90})
+                    ctx.count("sibling_worked_in_between")
+                except Exception:  # noqa: BLE001  (the sibling's own run is not under test here)
+                    pass
             try:
                 r2 = cont(inst, L2)
             except c13.Runaway:
@@ -469,7 +489,7 @@ def replay(ctx, rp):
     case = rp["case"]
     drv = ctx.driver("drv_c13")
     _classes()
-    ok = check_config(ctx, drv, case["cfg"], case["L2"], 10 ** 6)
+    ok = check_config(ctx, drv, case["cfg"], case["L2"], 10 ** 6, sibling=case.get("sibling"))
     print("replay: %s" % ("property holds and model agrees on this configuration (all interruption indices)" if ok and not ctx.known_hits else
                           ("only known findings reproduced" if ok or (not ctx.violations and not ctx.corr_breaks) else "REPRODUCED")))
     if "index" in case:
